@@ -197,6 +197,15 @@ fn f4_signature(d: &Digest, tid: usize, it: usize) -> bool {
 pub fn c13(d: &Digest, out: &mut Vec<Violation>) {
     match d.run.out.end {
         simrt::End::Deadlock => {}
+        simrt::End::StepLimit => {
+            // The programs are small (a few hundred scheduling steps); a run that is still going
+            // after tens of thousands of steps has a thread that keeps running without getting
+            // anywhere - a retry loop that cannot succeed, a poll that never sees its condition.
+            // On the unchanged tree no run comes near the limit.
+            let last = d.ev.iter().rev().take(200).map(|e| e.tid).collect::<std::collections::BTreeSet<_>>();
+            v(out, "C13", "livelock", format!("the run did not end within {} scheduling steps (a call that never returns because some thread spins); threads active at the end: {:?}", d.run.out.steps, last));
+            return;
+        }
         _ => return,
     }
     let blocked: Vec<String> = d
